@@ -12,11 +12,11 @@ import (
 
 // Instance is one rule instance (obligation) examined by a check.
 type Instance struct {
-	Rule string `json:"rule"`           // e.g. "C11.R1 close-once-ownership"
-	Key  string `json:"key"`            // rule + construct, never a line number
-	Pos  string `json:"pos,omitempty"`  // file:line of the construct (informational)
-	OK   bool   `json:"ok"`             // obligation discharged
-	Msg  string `json:"msg,omitempty"`  // why it holds / how it fails
+	Rule string   `json:"rule"`           // e.g. "C11.R1 close-once-ownership"
+	Key  string   `json:"key"`            // rule + construct, never a line number
+	Pos  string   `json:"pos,omitempty"`  // file:line of the construct (informational)
+	OK   bool     `json:"ok"`             // obligation discharged
+	Msg  string   `json:"msg,omitempty"`  // why it holds / how it fails
 	Path []string `json:"path,omitempty"` // call chain / path for path rules
 }
 
@@ -54,8 +54,10 @@ func (r *Report) Add(rule, key, pos string, ok bool, msg string, path ...string)
 }
 
 // OKf / Fail are conveniences.
-func (r *Report) OK(rule, key, pos, msg string)   { r.Add(rule, key, pos, true, msg) }
-func (r *Report) Fail(rule, key, pos, msg string, path ...string) { r.Add(rule, key, pos, false, msg, path...) }
+func (r *Report) OK(rule, key, pos, msg string) { r.Add(rule, key, pos, true, msg) }
+func (r *Report) Fail(rule, key, pos, msg string, path ...string) {
+	r.Add(rule, key, pos, false, msg, path...)
+}
 
 // Floor fails closed when a rule matched fewer instances than the mechanism
 // needs in order to exist at all.
